@@ -204,6 +204,64 @@ pub fn shim_iter_nth<I: Iterator>(it: I, n: usize) -> (r: Option<I::Item>)
     let mut it = it;
     it.nth(n)
 }
+/// std fact vstd states only under the key-order law: iterating a BTreeMap / HashMap always ends (the maps are finite whatever `Ord` / `Hash` do)
+#[verifier::external_body]
+pub proof fn axiom_btree_iter_finite<'a, K, V>(it: &std::collections::btree_map::Iter<'a, K, V>)
+    ensures vstd::std_specs::iter::IteratorSpec::decrease(it) is Some,
+{}
+/// N2 shim for `IT.map(F)` where the adapter itself is returned to the caller (`impl Iterator`): F (which computes `g`) is applied to
+/// every item, in order; the adapter ends when IT ends.  (vstd specifies `Iterator::map`, but its lemmas do not fire for closures of a
+/// function that is generic in a type the item mentions -- design_probes/p9 -- so the adapter's semantics are restated here.)
+#[verifier::external_body]
+pub fn shim_iter_map<I: Iterator, B, F: FnMut(I::Item) -> B>(it: I, Ghost(g): Ghost<spec_fn(I::Item) -> B>, f: F) -> (r: impl Iterator<Item = B>)
+    requires
+        vstd::std_specs::iter::IteratorSpec::obeys_prophetic_iter_laws(&it),
+        forall|i: int| 0 <= i < vstd::std_specs::iter::IteratorSpec::remaining(&it).len() ==> call_requires(f, (#[trigger] vstd::std_specs::iter::IteratorSpec::remaining(&it)[i],)),
+        forall|x: I::Item, o: B| #[trigger] call_ensures(f, (x,), o) ==> o == g(x),
+    ensures
+        vstd::std_specs::iter::IteratorSpec::obeys_prophetic_iter_laws(&r),
+        vstd::std_specs::iter::IteratorSpec::remaining(&r) == vstd::std_specs::iter::IteratorSpec::remaining(&it).map_values(g),
+        vstd::std_specs::iter::IteratorSpec::will_return_none(&r) == vstd::std_specs::iter::IteratorSpec::will_return_none(&it),
+        vstd::std_specs::iter::IteratorSpec::decrease(&r) == vstd::std_specs::iter::IteratorSpec::decrease(&it),
+{
+    it.map(f)
+}
+/// the same adapter for a closure whose result is only related to its argument (it clones): `rel(item, output)` holds position by position
+#[verifier::external_body]
+pub fn shim_iter_map_rel<I: Iterator, B, F: FnMut(I::Item) -> B>(it: I, Ghost(rel): Ghost<spec_fn(I::Item, B) -> bool>, f: F) -> (r: impl Iterator<Item = B>)
+    requires
+        vstd::std_specs::iter::IteratorSpec::obeys_prophetic_iter_laws(&it),
+        forall|i: int| 0 <= i < vstd::std_specs::iter::IteratorSpec::remaining(&it).len() ==> call_requires(f, (#[trigger] vstd::std_specs::iter::IteratorSpec::remaining(&it)[i],)),
+        forall|x: I::Item, o: B| #[trigger] call_ensures(f, (x,), o) ==> rel(x, o),
+    ensures
+        vstd::std_specs::iter::IteratorSpec::obeys_prophetic_iter_laws(&r),
+        vstd::std_specs::iter::IteratorSpec::remaining(&r).len() == vstd::std_specs::iter::IteratorSpec::remaining(&it).len(),
+        forall|i: int| 0 <= i < vstd::std_specs::iter::IteratorSpec::remaining(&it).len() ==> rel(vstd::std_specs::iter::IteratorSpec::remaining(&it)[i], #[trigger] vstd::std_specs::iter::IteratorSpec::remaining(&r)[i]),
+        vstd::std_specs::iter::IteratorSpec::will_return_none(&r) == vstd::std_specs::iter::IteratorSpec::will_return_none(&it),
+        vstd::std_specs::iter::IteratorSpec::decrease(&r) == vstd::std_specs::iter::IteratorSpec::decrease(&it),
+{
+    it.map(f)
+}
+#[verifier::external_body]
+pub proof fn axiom_btree_values_finite<'a, K, V>(it: &std::collections::btree_map::Values<'a, K, V>)
+    ensures vstd::std_specs::iter::IteratorSpec::decrease(it) is Some,
+{}
+#[verifier::external_body]
+pub proof fn axiom_hash_iter_finite<'a, K, V>(it: &std::collections::hash_map::Iter<'a, K, V>)
+    ensures vstd::std_specs::iter::IteratorSpec::decrease(it) is Some,
+{}
+/// N2 shim for `IT.copied()` where the adapter is returned to the caller: every `&X` item dereferenced, in order
+#[verifier::external_body]
+pub fn shim_iter_copied<'a, X: Copy + 'a, I: Iterator<Item = &'a X>>(it: I) -> (r: impl Iterator<Item = X>)
+    requires vstd::std_specs::iter::IteratorSpec::obeys_prophetic_iter_laws(&it),
+    ensures
+        vstd::std_specs::iter::IteratorSpec::obeys_prophetic_iter_laws(&r),
+        vstd::std_specs::iter::IteratorSpec::remaining(&r) == vstd::std_specs::iter::IteratorSpec::remaining(&it).map_values(|x: &X| *x),
+        vstd::std_specs::iter::IteratorSpec::will_return_none(&r) == vstd::std_specs::iter::IteratorSpec::will_return_none(&it),
+        vstd::std_specs::iter::IteratorSpec::decrease(&r) == vstd::std_specs::iter::IteratorSpec::decrease(&it),
+{
+    it.copied()
+}
 /// What `C::from_iter` builds from the sequence of items it is handed.  `FromIterator` is implemented by the caller's
 /// container; the only thing assumed about it is that the result is a function of the yielded sequence.
 pub uninterp spec fn from_iter_spec<C, X>(s: Seq<X>) -> C;
